@@ -316,3 +316,36 @@ Lemma batch_extract_chans : batch_partition batch_lo_extract_chans batch_hi_extr
 Proof. exact batch_std. Qed.
 Lemma batch_extract_bands : batch_partition batch_lo_extract_bands batch_hi_extract_bands.
 Proof. exact batch_std. Qed.
+
+(** * FourierSeries.to_spec: a one-shot writer (prep_outfile; one cwrite of the whole spectrum; __exit__).
+      Its site descriptor is regenerated like the others and is a member of [all_sites], so every statement above holds for it;
+      spelled out for its single block [b]: the path goes old -> empty -> header -> header ++ b and stays there. *)
+Lemma to_spec_in : In site_to_spec all_sites.
+Proof. unfold all_sites. repeat (try (left; reflexivity); right). Qed.
+
+Lemma to_spec_prefix old h b :
+  In site_to_spec all_sites /\
+  map (fun k => disk (at_crash site_to_spec old h [b] k)) [0; 1; 2; 3]%nat = [old; []; h; h ++ b] /\
+  (forall k, (3 <= k)%nat -> disk (at_crash site_to_spec old h [b] k) = h ++ b) /\
+  (forall k, (2 <= k)%nat -> pend (at_crash site_to_spec old h [b] k) = [] /\
+     exists t, h ++ b = disk (at_crash site_to_spec old h [b] k) ++ t) /\
+  disk (on_return site_to_spec old h [b]) = h ++ b /\ pend (on_return site_to_spec old h [b]) = [].
+Proof.
+  pose proof to_spec_in as Hin.
+  assert (H3 : forall k, (3 <= k)%nat -> disk (at_crash site_to_spec old h [b] k) = h ++ b).
+  { intros k Hk. destruct (lib_append_only site_to_spec old h [b] k Hin ltac:(lia)) as (E & _ & _). rewrite E.
+    replace (k - 2)%nat with (S (k - 3)) by lia. cbn [firstn]. rewrite firstn_nil. cbn [concat]. now rewrite app_nil_r. }
+  assert (H2 : disk (at_crash site_to_spec old h [b] 2) = h).
+  { destruct (lib_append_only site_to_spec old h [b] 2 Hin ltac:(lia)) as (E & _ & _). rewrite E. cbn. now rewrite app_nil_r. }
+  destruct (lib_before_header site_to_spec old h [b] Hin) as (E0 & E1).
+  destruct (lib_complete_on_return site_to_spec old h [b] Hin) as (Er & Pr).
+  split; [exact Hin|]. split.
+  { cbn [map]. rewrite E0, E1, H2, (H3 3%nat ltac:(lia)). reflexivity. }
+  split; [exact H3|]. split.
+  { intros k Hk. split.
+    - exact (proj1 (proj2 (lib_append_only site_to_spec old h [b] k Hin Hk))).
+    - destruct (Nat.eq_dec k 2) as [->|Hne].
+      + exists b. now rewrite H2.
+      + exists []. rewrite (H3 k ltac:(lia)). now rewrite app_nil_r. }
+  split; [|exact Pr]. rewrite Er. cbn [concat]. now rewrite app_nil_r.
+Qed.
